@@ -56,18 +56,22 @@ func checkC16(p *Prog, r *Report) {
 	params := []string{"dataShards", "parityShards", "shardSize", "codec", "paws", "decodeCache", "flagCache", "shardSet"}
 	ctor := p.FuncByName("newFECDecoder")
 	// the region: conditions that must dominate every store
-	var autoDS, autoPS *types.Var
+	// the detected periods: locals, or fields of a local struct value (auto.data, auto.parity)
+	var autoDS, autoPS *Term
+	isDetected := func(t *Term) bool {
+		return t.Op == "var" || (t.Op == "fld" && len(t.Args) == 1 && t.Args[0].Op == "var")
+	}
 	for _, st := range p.FieldStores(p.Field("fecDecoder", "dataShards")) {
-		if st.Fn == fi && st.Rhs != nil {
-			if t := p.Term(st.Rhs); t.Op == "var" {
-				autoDS, _ = t.Obj.(*types.Var)
+		if st.Fn == fi && st.Rhs != nil && !st.InLit {
+			if t := p.Term(st.Rhs); isDetected(t) {
+				autoDS = t
 			}
 		}
 	}
 	for _, st := range p.FieldStores(p.Field("fecDecoder", "parityShards")) {
-		if st.Fn == fi && st.Rhs != nil {
-			if t := p.Term(st.Rhs); t.Op == "var" {
-				autoPS, _ = t.Obj.(*types.Var)
+		if st.Fn == fi && st.Rhs != nil && !st.InLit {
+			if t := p.Term(st.Rhs); isDetected(t) {
+				autoPS = t
 			}
 		}
 	}
@@ -75,26 +79,46 @@ func checkC16(p *Prog, r *Report) {
 		r.bad("C16.T2", fi.Name, p.Pos(fi.Node), "retune", "decode does not store detected periods into dataShards / parityShards", "")
 	} else {
 		// the detected values come from FindPeriod(true) / FindPeriod(false)
-		srcOK := func(v *types.Var, bit string) bool {
-			for _, as := range p.Assignments(fi, v) {
-				if as.Rhs == nil {
+		srcOK := func(d *Term, bit string) bool {
+			isFind := func(e ast.Expr) bool {
+				if e == nil {
 					return false
 				}
-				t := p.Term(as.Rhs)
-				if !(t.Op == "call" && t.Obj == p.Method("autoTune", "FindPeriod") && len(t.Args) == 2 && t.Args[1].Op == bit) {
+				t := p.Term(e)
+				return t.Op == "call" && t.Obj == p.Method("autoTune", "FindPeriod") && len(t.Args) == 2 && t.Args[1].Op == bit
+			}
+			if d.Op == "var" {
+				v, _ := d.Obj.(*types.Var)
+				for _, as := range p.Assignments(fi, v) {
+					if !isFind(as.Rhs) {
+						return false
+					}
+				}
+				return true
+			}
+			// field of a local struct value: every store to that field of that local is the detector's result, and the local is not assigned as a whole elsewhere
+			fv, _ := d.Obj.(*types.Var)
+			n := 0
+			for _, st := range p.FieldStores(fv) {
+				if st.Fn != fi || st.Base == nil || st.Base.Key() != d.Args[0].Key() {
+					continue
+				}
+				n++
+				if !isFind(st.Rhs) {
 					return false
 				}
 			}
-			return true
+			lv, _ := d.Args[0].Obj.(*types.Var)
+			return n > 0 && lv != nil && len(p.Assignments(fi, lv)) <= 1
 		}
 		r.check(srcOK(autoDS, "true") && srcOK(autoPS, "false"), "C16.T2", fi.Name, p.Pos(fi.Node), "source of the new ratio", "FindPeriod(true) -> dataShards, FindPeriod(false) -> parityShards", "the new ratio is not the detected data period / parity period")
 		need := map[string]bool{
 			tFld(recv, fShould).Key():                              false,
-			lt(tConst(0), tVar(autoDS)).Key():                      false,
-			lt(tConst(0), tVar(autoPS)).Key():                      false,
-			lt(add(tVar(autoDS), tVar(autoPS)), tConst(256)).Key(): false,
+			lt(tConst(0), autoDS).Key():                      false,
+			lt(tConst(0), autoPS).Key():                      false,
+			lt(add(autoDS, autoPS), tConst(256)).Key(): false,
 		}
-		diffKey := normTerm(mk("||", ne(tVar(autoDS), F("dataShards")), ne(tVar(autoPS), F("parityShards")))).Key()
+		diffKey := normTerm(mk("||", ne(autoDS, F("dataShards")), ne(autoPS, F("parityShards")))).Key()
 		for _, name := range params {
 			f := p.Field("fecDecoder", name)
 			n := 0
@@ -255,7 +279,7 @@ func checkC16(p *Prog, r *Report) {
 				for _, a := range Conjuncts(ca.T) {
 					k := a.Key()
 					switch {
-					case autoDS != nil && (k == lt(tConst(0), tVar(autoDS)).Key() || k == lt(tConst(0), tVar(autoPS)).Key() || k == lt(add(tVar(autoDS), tVar(autoPS)), tConst(256)).Key()):
+					case autoDS != nil && (k == lt(tConst(0), autoDS).Key() || k == lt(tConst(0), autoPS).Key() || k == lt(add(autoDS, autoPS), tConst(256)).Key()):
 						haveValid = true
 					case k == tFld(recv, fShould).Key() || !insideRegion(c, ca.B, tFld(recv, fShould)):
 					default:
@@ -462,10 +486,10 @@ func checkC16(p *Prog, r *Report) {
 		ast.Inspect(fi.Body, func(x ast.Node) bool {
 			if be, ok := x.(*ast.BinaryExpr); ok && autoDS != nil {
 				t := p.Term(be)
-				if t.Op == "<" && t.Args[1].IsConst() && Lin(t.Args[0]).Equal(Lin(add(tVar(autoDS), tVar(autoPS)))) {
+				if t.Op == "<" && t.Args[1].IsConst() && Lin(t.Args[0]).Equal(Lin(add(autoDS, autoPS))) {
 					limit = t.Args[1].Int - 1
 				}
-				if t.Op == "<=" && t.Args[1].IsConst() && Lin(t.Args[0]).Equal(Lin(add(tVar(autoDS), tVar(autoPS)))) {
+				if t.Op == "<=" && t.Args[1].IsConst() && Lin(t.Args[0]).Equal(Lin(add(autoDS, autoPS))) {
 					limit = t.Args[1].Int
 				}
 			}
@@ -536,7 +560,7 @@ func isErrNil(p *Prog, fi *FuncInfo, a *Term) bool {
 
 // sameShapeAsCtor compares the retune store with the constructor's store of
 // the same field, after renaming the ratio variables.
-func sameShapeAsCtor(p *Prog, ctor, fi *FuncInfo, name string, st FieldStore, autoDS, autoPS *types.Var) string {
+func sameShapeAsCtor(p *Prog, ctor, fi *FuncInfo, name string, st FieldStore, autoDS, autoPS *Term) string {
 	f := p.Field("fecDecoder", name)
 	var cst *FieldStore
 	for _, s := range p.FieldStores(f) {
@@ -548,7 +572,7 @@ func sameShapeAsCtor(p *Prog, ctor, fi *FuncInfo, name string, st FieldStore, au
 	if cst == nil || st.Rhs == nil {
 		return "no constructor store of " + name + " to compare with"
 	}
-	norm := func(fn *FuncInfo, s FieldStore, d, q types.Object) string {
+	norm := func(fn *FuncInfo, s FieldStore, d, q *Term) string {
 		t := p.Term(s.Rhs)
 		// codec: the local assigned from reedsolomon.New(d, p)
 		if t.Op == "var" && name == "codec" {
@@ -562,8 +586,8 @@ func sameShapeAsCtor(p *Prog, ctor, fi *FuncInfo, name string, st FieldStore, au
 		}
 		t = stripConvs(t)
 		k := t.Key()
-		k = strings.ReplaceAll(k, tVar(d).Key(), "D")
-		k = strings.ReplaceAll(k, tVar(q).Key(), "P")
+		k = strings.ReplaceAll(k, d.Key(), "D")
+		k = strings.ReplaceAll(k, q.Key(), "P")
 		if s.Base != nil {
 			k = strings.ReplaceAll(k, tFld(s.Base, p.Field("fecDecoder", "dataShards")).Key(), "D")
 			k = strings.ReplaceAll(k, tFld(s.Base, p.Field("fecDecoder", "parityShards")).Key(), "P")
@@ -581,7 +605,7 @@ func sameShapeAsCtor(p *Prog, ctor, fi *FuncInfo, name string, st FieldStore, au
 		return "constructor signature changed"
 	}
 	cd, cp = p.Info.Defs[names[0]], p.Info.Defs[names[1]]
-	a := norm(ctor, *cst, cd, cp)
+	a := norm(ctor, *cst, tVar(cd), tVar(cp))
 	b := norm(fi, st, autoDS, autoPS)
 	if a != b {
 		return fmt.Sprintf("the retune computes %s as %s, the constructor as %s: after adopting the sender's ratio the decoder is not in the state a decoder constructed with that ratio would be in", name, pretty(b), pretty(a))
